@@ -1,11 +1,15 @@
 package main
 
 import (
+	"net/url"
+
 	"bufio"
 	"bytes"
 	"context"
 	"errors"
 	"fmt"
+	"github.com/go-git/go-git/v6/plumbing/protocol"
+	"github.com/go-git/go-git/v6/plumbing/transport/file"
 	"io"
 	"sort"
 
@@ -203,4 +207,68 @@ func negotiateOp(c lib.Case) (lib.Out, any) {
 		conn.process()
 	}
 	return lib.Ok(lib.Bool(nochange), lib.List(conn.rounds...)), nil
+}
+
+// op=v2serve: a client store (objects held, shallow list) fetches from the go-git upload-pack server over the in-process
+// file transport with the given protocol version, wants, haves and depth — no Remote logic in between.  Observable:
+// the objects gained and the shallow list afterwards.
+func v2serveOp(c lib.Case) (lib.Out, any) {
+	srv, ids, hashOf := loadStore(c)
+	cl := memory.NewStorage()
+	has := map[int64]bool{}
+	for _, x := range c.L("client_objs") {
+		has[lib.Case{"v": x}.I("v")] = true
+	}
+	for _, x := range c.L("objs") {
+		o := lib.AsCase(x)
+		if !has[o.I("id")] {
+			continue
+		}
+		mo := &plumbing.MemoryObject{}
+		mo.SetType(types[o.S("t")])
+		mo.Write(o.B("data"))
+		cl.SetEncodedObject(mo)
+	}
+	before := map[plumbing.Hash]bool{}
+	for h := range cl.Objects {
+		before[h] = true
+	}
+	if sh := idList(c, "shallow", hashOf); len(sh) > 0 {
+		cl.SetShallow(sh)
+	}
+	tr := file.NewTransport(file.Options{Loader: transport.MapLoader{"/srv": srv}})
+	v := protocol.V2
+	if c.I("proto") == 0 {
+		v = protocol.V0
+	}
+	sess, err := tr.Handshake(context.Background(), &transport.Request{URL: &url.URL{Scheme: "file", Path: "/srv"},
+		Command: transport.UploadPackService, Protocol: v})
+	if err != nil {
+		return lib.Err("handshake"), err.Error()
+	}
+	defer sess.Close()
+	err = sess.Fetch(context.Background(), cl, &transport.FetchRequest{Wants: idList(c, "wants", hashOf),
+		Haves: idList(c, "haves", hashOf), Depth: int(c.I("depth"))})
+	if errors.Is(err, transport.ErrNoChange) {
+		return lib.Err("nochange"), nil
+	}
+	if err != nil {
+		return lib.Err("fail"), err.Error()
+	}
+	var gained []plumbing.Hash
+	for h := range cl.Objects {
+		if !before[h] {
+			gained = append(gained, h)
+		}
+	}
+	shl, _ := cl.Shallow()
+	uniq := map[plumbing.Hash]bool{}
+	var su []plumbing.Hash
+	for _, h := range shl {
+		if !uniq[h] {
+			uniq[h] = true
+			su = append(su, h)
+		}
+	}
+	return lib.Ok(sortedIDs(gained, ids), sortedIDs(su, ids)), nil
 }
